@@ -160,6 +160,8 @@ def main(pid, tier, seed, replay=None, jobs=None):
                         cur.append(e)
         if r.get("agg") is not None:
             aggs.append((i, r["agg"]))
+        if r.get("inconclusive"):
+            inconclusive.append("case %d: %s" % (i, r["inconclusive"]))
         if r.get("skip"):
             skipped[r["skip"]] = skipped.get(r["skip"], 0) + 1
         for k in r.get("keys") or ([r["key"]] if r.get("key") else []):
